@@ -823,7 +823,39 @@ void oracle_c13_addrs(World &w, const History &)
       continue;
     }
     if (r.kind != 6 && r.kind != 7) continue;
-    if (t.status != ARES_SUCCESS) continue;
+    if (t.status != ARES_SUCCESS) {
+      // a name the hosts file in force defines for the requested family must be answered from it when the lookup order
+      // starts with (or consists of) the file: a failing lookup is not "no result", it is the file being ignored
+      if (r.kind == 6 && !w.cfg->lookups.empty() && w.cfg->lookups[0] == 'f') {
+        const std::string &ht = ((r.ai_flags & ARES_AI_ENVHOSTS) && !w.cfg->env_hosts.empty()) ? w.cfg->env_hosts : w.cfg->hosts;
+        std::string        ln = vdns::lower(r.name);
+        bool               defined = false;
+        size_t             pos = 0;
+        while (pos < ht.size()) {
+          size_t      e    = ht.find('\n', pos);
+          std::string line = ht.substr(pos, e == std::string::npos ? std::string::npos : e - pos);
+          pos              = e == std::string::npos ? ht.size() : e + 1;
+          std::vector<std::string> tok;
+          std::string              cur;
+          for (char ch : line + " ") {
+            if (ch == ' ' || ch == '\t') {
+              if (!cur.empty()) tok.push_back(cur);
+              cur.clear();
+            } else
+              cur += ch;
+          }
+          unsigned char a[16];
+          for (size_t i = 1; i < tok.size(); i++)
+            if (vdns::lower(tok[i]) == ln) {
+              bool v4 = inet_pton(AF_INET, tok[0].c_str(), a) == 1, v6 = inet_pton(AF_INET6, tok[0].c_str(), a) == 1;
+              if ((v4 && (r.family == AF_UNSPEC || r.family == AF_INET)) || (v6 && (r.family == AF_UNSPEC || r.family == AF_INET6))) defined = true;
+            }
+        }
+        if (defined && w.deviations == 0 && t.status != ARES_ECANCELLED && t.status != ARES_EDESTRUCTION)
+          w.violate("C13:non-dns:hosts-entry-not-used", fmt("lookup of %s (family %d, flags %x) failed with status %d although the hosts file in force defines it", r.name.c_str(), r.family, r.ai_flags, t.status));
+      }
+      continue;
+    }
     // ---- expected multiset
     std::multiset<std::string> want, got;
     bool                       from_dns = false;
